@@ -1332,6 +1332,21 @@ def phase_list_rule(model, rep, r, an, labels=("R4", "R5")):
     it = ploop.iter
     if not isinstance(it, ast.Name):
         raise AnalysisError("phase loop does not iterate over a name")
+    def only_rejects(s):
+        """an if / for whose only possible outcome besides falling through is a raise, and that binds nothing"""
+        if isinstance(s, (ast.Raise, ast.Pass)):
+            return True
+        if isinstance(s, ast.If):
+            return all(only_rejects(x) for x in s.body + s.orelse)
+        if isinstance(s, ast.For):
+            return all(only_rejects(x) for x in s.body + s.orelse)
+        return False
+
+    def concerns_phases(s):
+        names = {y.id for y in ast.walk(s) if isinstance(y, ast.Name)}
+        return "phase" in names or it.id in names or any(isinstance(y, ast.Constant) and y.value == "phases" for y in ast.walk(s))
+    # up-front validation of other arguments (raise or fall through, nothing bound, phases not mentioned) is not the phase list's business
+    pre = [s for s in pre if not (isinstance(s, (ast.If, ast.For)) and only_rejects(s) and not concerns_phases(s))]
     try:
         leaves = sm.summarize_block([s for s in pre if not (isinstance(s, ast.Expr) and isinstance(s.value, ast.Call))], args)
     except Unsupported as e:
